@@ -17,8 +17,9 @@ Print pf_val.
 
 Definition c26_trusted_kept (o : xop) (pre post : pl) : bool :=
   match o with
-  | Restart _ _ _ _ => true          (* a restart re-derives trust from the default connections *)
+  | Restart _ _ _ _ _ => true          (* a restart re-derives trust from the default connections *)
   | Op SetAllUntrusted => true
+  | Download _ _ _ => forallb (fun e : str * peer => negb (p_trusted (snd e)) || match pget (fst e) post with Some q => p_trusted q | None => false end) pre
   | Op o' =>
     forallb (fun e : str * peer =>
       negb (p_trusted (snd e))
@@ -39,9 +40,12 @@ Fixpoint c26_steps_pf (max : Z) (allow : bool) (pre : pl) (steps : list (xop * o
 (* start: whatever the cache file holds, the list only has addresses valid under
    the configured localhost policy, and at most Max of them *)
 Definition pf_start := Eval vm_compute in
-  failing (fun c : Z * bool * bool * list fentry * list str * list str * Z * pl =>
-             let '(max, allow, disable, es, kept, defaults, now, d) := c in
-             c26_list_ok max allow d && (negb (0 <? max) || (plen d <=? max))) cases_start.
+  failing (fun c : Z * bool * bool * list fentry * list str * list str * option str * Z * option pl =>
+             let '(max, allow, disable, es, kept, defaults, custom, now, d) := c in
+             match d with
+             | Some d' => c26_list_ok max allow d' && (negb (0 <? max) || (plen d' <=? max))
+             | None => true
+             end) cases_start.
 Print pf_start.
 Definition pf_ops := Eval vm_compute in
   failing (fun c : Z * bool * pl * list (xop * out * pl) => let '(max, allow, l0, steps) := c in c26_steps_pf max allow l0 steps) cases_ops.
